@@ -107,3 +107,146 @@ Print Assumptions C08_restore_frontier.
 Print Assumptions C08_resume_exact.
 Print Assumptions C08_suffix_and_repeats.
 Print Assumptions C08_refuted_lt.
+
+(* ---- third tie to the source: gen/Queue_gen.v is the translation of the Python text of the
+   priority-queue OBJECT (lib_guesser/priority_queue.py: PcfgQueue.__init__ with a save_config,
+   restore_base_item, insert_queue, next, update_save_config, QueueItem's comparison methods) and of
+   PcfgGrammar.restore_prob_order (harness/translate_queue.py, redone on every run).  heapq is not
+   translated: push / pop are arbitrary functions meeting its contract for the translated __lt__.
+   The config object holds the floats whose str() is stored (float(str(p)) = p is trusted).
+   up / un / ui: the undefined values; flit: the meaning of a float literal (the identity for
+   binary64); fuel: the depth the recursive walk may reach. ---- *)
+From Coq Require Import NArith.
+From Pcfg Require Import QueueRt QueueModel QueueProofs QueueGenProofs.
+From PcfgGen Require Import Queue_gen.
+
+(* restore_prob_order starts the recursive walk at left_index 0 with the callback and returns True *)
+Theorem C08_source_restore_entry_is_model :
+  forall (A : palg) (up : P A) (un : var * nat) (fuel : nat) (rs : ruleset A) (it : item A) (m mn : P A),
+  py_restore_prob_order up un fuel rs it m mn = (true, py_restore up un fuel rs it m mn 0).
+Proof. exact (fun A up un fuel rs it m mn => queue_restore_prob_order_eq up un fuel rs it m mn). Qed.
+
+(* ... after raising CPython's recursion limit to at least 10^6 (deep restores must work) *)
+Theorem C08_source_recursion_limit_raised : (1000000 <=? py_restore_prob_order_recursion_limit)%N = true.
+Proof. vm_compute. reflexivity. Qed.
+
+(* what update_save_config writes is what the constructor reads back: max for max, min for min *)
+Theorem C08_source_save_config_is_model :
+  forall (A : palg) (q : pcfg_queue A) (cfg : config A) (d : P A),
+  cfg_max d (py_PcfgQueue_update_save_config q cfg) = max_probability q /\
+  cfg_min d (py_PcfgQueue_update_save_config q cfg) = min_probability q.
+Proof. exact (fun A q cfg d => queue_save_reads q cfg d). Qed.
+
+(* PcfgQueue(pcfg, save_config) = the model's restored object: per base item (none skipped, in order) the
+   items the walk saves are pushed; max / min probability are the saved ones *)
+Theorem C08_source_init_restore_is_model :
+  forall (A : palg) (up : P A) (un : var * nat) (flit : float -> P A) (push : heap A -> item A -> heap A)
+         (fuel : nat) (rs : ruleset A) (cfg : config A),
+  py_PcfgQueue_init up un flit push fuel rs (Some cfg) =
+  q_restored push 50000%N (py_initalize_base_structures up rs) (fun it m mn => py_restore up un fuel rs it m mn 0)
+             (cfg_max up cfg) (cfg_min up cfg).
+Proof. exact (fun A up un flit push fuel rs cfg => queue_init_restore_eq up un flit push fuel rs cfg). Qed.
+
+Theorem C08_translated_init_restore_is_model :
+  forall (A : palg) (up : P A) (un : var * nat) (flit : float -> P A) (rs : ruleset A), wf rs ->
+  forall (push : heap A -> item A -> heap A) (fuel : nat) (cfg : config A),
+  (forall p, okb p = true -> ple (cfg_min up cfg) p = true) ->
+  (forall it, In it (init_items rs) -> restore_fuel rs it <= fuel) ->
+  py_PcfgQueue_init up un flit push fuel rs (Some cfg) = q_resume push 50000%N rs (cfg_max up cfg) (cfg_min up cfg).
+Proof. exact (fun A up un flit rs H push fuel cfg => queue_init_restore_model up un flit rs H push fuel cfg). Qed.
+
+(* the heap right after the constructor is the frontier of the saved probability *)
+Theorem C08_restore_frontier_queue_translated :
+  forall (A : palg) (up : P A) (un : var * nat) (flit : float -> P A) (rs : ruleset A), wf rs ->
+  forall (push : heap A -> item A -> heap A), push_ok push -> forall (fuel : nat) (cfg : config A),
+  (forall p, okb p = true -> ple (cfg_min up cfg) p = true) ->
+  (forall it, In it (init_items rs) -> restore_fuel rs it <= fuel) ->
+  okb (cfg_max up cfg) = true ->
+  Permutation (p_queue (py_PcfgQueue_init up un flit push fuel rs (Some cfg)))
+              (filter (frontierb rs (cfg_max up cfg)) (all_preterminals rs)) /\
+  max_probability (py_PcfgQueue_init up un flit push fuel rs (Some cfg)) = cfg_max up cfg.
+Proof. exact (fun A up un flit rs H push Hpush fuel cfg => queue_restore_frontier up un flit rs H push Hpush fuel cfg). Qed.
+
+(* the resumed session over the translated object returns exactly the pre-terminals at or below the saved
+   probability, each once, in non-increasing order, and then the heap is empty *)
+Theorem C08_resume_exact_queue_translated :
+  forall (A : palg) (up : P A) (un : var * nat) (ui : item A) (flit : float -> P A) (rs : ruleset A), wf rs ->
+  forall (push : heap A -> item A -> heap A) (pop : heap A -> option (item A * heap A)),
+  push_ok push -> heap_ok py_QueueItem_lt pop -> forall (fuel : nat) (cfg : config A),
+  (forall p, okb p = true -> ple (cfg_min up cfg) p = true) ->
+  (forall it, In it (init_items rs) -> restore_fuel rs it <= fuel) ->
+  okb (cfg_max up cfg) = true ->
+  let SS := filter (below (cfg_max up cfg)) (all_preterminals rs) in
+  let s := fun n => py_session up un ui flit push pop fuel rs (Some cfg) n in
+  (forall n, nonincreasing (rev (fst (s n)))) /\
+  (forall n, NoDup (fst (s n) ++ p_queue (snd (s n)))) /\
+  (forall n x, In x (fst (s n) ++ p_queue (snd (s n))) -> In x SS) /\
+  (forall n, n <= length SS -> length (fst (s n)) = n) /\
+  Permutation (fst (s (length SS))) SS /\
+  p_queue (snd (s (length SS))) = nil.
+Proof.
+  exact (fun A up un ui flit rs H push pop Hpush Hpop fuel cfg =>
+           queue_resume_exact up un ui flit rs H push pop Hpush (proj1 (queue_heap_contract pop) Hpop) fuel cfg).
+Qed.
+
+(* the property's sentence over two translated objects: session 1 (new) is quit when its k-th call of next
+   has returned x and update_save_config writes cfg; session 2 (another heap allowed) is constructed from cfg *)
+Theorem C08_suffix_and_repeats_queue_translated :
+  forall (A : palg) (up : P A) (un : var * nat) (ui : item A) (flit : float -> P A) (rs : ruleset A)
+         (push push' : heap A -> item A -> heap A) (pop pop' : heap A -> option (item A * heap A))
+         (fuel fuel' : nat) (cfg0 : config A) (k : nat) (U1 : list (item A)) (x : item A) (U2 : list (item A)),
+  wf rs -> push_ok push -> push_ok push' -> heap_ok py_QueueItem_lt pop -> heap_ok py_QueueItem_lt pop' ->
+  (forall p, okb p = true -> ple (flit 0%float) p = true) ->
+  (forall it, In it (init_items rs) -> restore_fuel rs it <= fuel') ->
+  rev (fst (py_session up un ui flit push pop fuel rs None (total rs))) = U1 ++ x :: U2 ->
+  fst (py_session up un ui flit push pop fuel rs None k) = x :: rev U1 ->
+  let cfg := py_PcfgQueue_update_save_config (snd (py_session up un ui flit push pop fuel rs None k)) cfg0 in
+  let m := iprob x in
+  let B := fst (py_session up un ui flit push' pop' fuel' rs (Some cfg) (length (filter (below m) (all_preterminals rs)))) in
+  (forall y, In y (x :: U2) -> In y B) /\
+  (forall y, In y B -> ple (iprob y) m = true) /\
+  NoDup B /\
+  (forall y, In y B -> In y U1 -> peq (iprob y) m = true) /\
+  nonincreasing (rev B).
+Proof.
+  exact (fun A up un ui flit rs push push' pop pop' fuel fuel' cfg0 k U1 x U2 Hwf Hpush Hpush' Hpop Hpop' =>
+           queue_suffix_and_repeats up un ui flit rs push push' pop pop' fuel fuel' cfg0 k U1 x U2 Hwf Hpush Hpush'
+             (proj1 (queue_heap_contract pop) Hpop) (proj1 (queue_heap_contract pop') Hpop')).
+Qed.
+
+(* binary64: float literals are themselves and 0.0 (the min_probability __init__ sets) is below every ok double *)
+Theorem C08_binary64_min_probability_below_ok : forall p : P F64, okb p = true -> @ple F64 0%float p = true.
+Proof. exact queue_binary64_min_probability. Qed.
+
+(* ... hence the sentence for binary64 objects (flit = the identity) without a hypothesis on the literals *)
+Theorem C08_suffix_and_repeats_queue_binary64 :
+  forall (up : P F64) (un : var * nat) (ui : item F64) (rs : ruleset F64)
+         (push push' : heap F64 -> item F64 -> heap F64) (pop pop' : heap F64 -> option (item F64 * heap F64))
+         (fuel fuel' : nat) (cfg0 : config F64) (k : nat) (U1 : list (item F64)) (x : item F64) (U2 : list (item F64)),
+  wf rs -> push_ok push -> push_ok push' -> pop_ok_okb pop -> pop_ok_okb pop' ->
+  (forall it, In it (init_items rs) -> restore_fuel rs it <= fuel') ->
+  rev (fst (@py_session F64 up un ui (fun f => f) push pop fuel rs None (total rs))) = U1 ++ x :: U2 ->
+  fst (@py_session F64 up un ui (fun f => f) push pop fuel rs None k) = x :: rev U1 ->
+  let cfg := py_PcfgQueue_update_save_config (snd (@py_session F64 up un ui (fun f => f) push pop fuel rs None k)) cfg0 in
+  let m := iprob x in
+  let B := fst (@py_session F64 up un ui (fun f => f) push' pop' fuel' rs (Some cfg)
+                            (length (filter (below m) (all_preterminals rs)))) in
+  (forall y, In y (x :: U2) -> In y B) /\
+  (forall y, In y B -> ple (iprob y) m = true) /\
+  NoDup B /\
+  (forall y, In y B -> In y U1 -> peq (iprob y) m = true) /\
+  nonincreasing (rev B).
+Proof. exact queue_suffix_and_repeats_F64. Qed.
+
+(* non-vacuity: the demo ruleset, a list heap; a session quit after 7 pops, saved, restored, run *)
+Theorem C08_queue_hypotheses_satisfiable :
+  wf demo_rs /\ push_ok (@list_push F64) /\ pop_ok_okb (@pop_first_max F64) /\
+  (forall it, In it (init_items demo_rs) -> restore_fuel demo_rs it <= 20) /\
+  length (fst (demo_session None 44)) = 44 /\
+  (let cfg := py_PcfgQueue_update_save_config (snd (demo_session None 7)) nil in
+   length (fst (demo_session (Some cfg) 60)) = 41 /\ @okb F64 (@cfg_max F64 nan cfg) = true).
+Proof. exact queue_hypotheses_satisfiable. Qed.
+
+Print Assumptions C08_suffix_and_repeats_queue_translated.
+Print Assumptions C08_resume_exact_queue_translated.
+Print Assumptions C08_source_recursion_limit_raised.
